@@ -13,6 +13,7 @@ From Coq Require Import List QArith Reals Qreals Lia Lra Arith Bool ZArith Permu
 From NV Require Import Scalar.Ops Model.Common Model.Basis Model.KnotIns Model.InsertKnot
   Proofs.Boehm Proofs.BasisR Proofs.KnotInsR Proofs.InsertKnotR Proofs.KnotInsN Proofs.InsertNR Proofs.InsertDirR Proofs.InsertVolR Proofs.InsertOpR
   Run.InsertKnotH.   (* comparison helpers of the correspondence families: kept in the build closure of this file *)
+From NV Require Import Proofs.InsertOpSurf.
 Import ListNotations.
 
 (* [G] the knot vector gains exactly r copies of u (multiset), in sorted position, whatever r, the span k being the
@@ -259,3 +260,125 @@ Example C04_rejection_example :
   let c := mkC 2 [0;0;0;1#2;1#2;1;1;1]%Q [[0];[1];[2];[3];[4]]%Q in
   insert_knot_curve Qops 0%Q true c [Some (1#2)%Q] [1%Z] = (c, true).
 Proof. vm_compute. reflexivity. Qed.
+
+(* ====================== round 2 (Proofs/InsertOpSurf.v): the whole insert_knot operation on surfaces and volumes with the code's own searches ====================== *)
+(* [G] THE SURFACE OPERATION AS A WHOLE, any combination of directions (a direction with parameter None or count 0 is
+   not requested), with the code's own span / multiplicity searches.  Vocabulary (Proofs/InsertOpSurf.v):
+     swf g dim        both directions valid (sorted knot vector of length size + degree + 1, degree < size), su*sv points of dimension dim
+     par_ok tol p U n o   a requested parameter lies in [U_p, U_n) and tol does not confuse distinct knots
+     eff o n          the requested count (0 if o = None);   excess tol p U o n   o = Some t, 1 <= n and p - mult(t) < n
+     kv_after p U n o num   knot_insertion_kv U t (find_span_linear p U n t) num  (U itself if not requested)
+   insert_knot raises exactly when some requested direction has an excess count; u is processed before v, so the surface
+   is the old one when u raises or u was not requested; in every case the points are unchanged. *)
+Theorem C04_insert_knot_surf_correct : forall (tol : R) (g : surf (T:=R)) (ou ov : option R) (nu nv dim : nat),
+  swf g dim -> par_ok tol (s_pu g) (s_Uu g) (s_su g) ou -> par_ok tol (s_pv g) (s_Uv g) (s_sv g) ov ->
+  let '(g', raised) := insert_knot_surf Rops tol true g [ou; ov] [Z.of_nat nu; Z.of_nat nv] in
+  let xu := excess tol (s_pu g) (s_Uu g) ou nu in let xv := excess tol (s_pv g) (s_Uv g) ov nv in
+  (raised = true <-> xu \/ xv) /\
+  (raised = true -> (xu -> g' = g) /\ (eff ou nu = 0%nat -> g' = g) /\
+     (~ xu -> s_su g' = (s_su g + eff ou nu)%nat /\ s_Uu g' = kv_after (s_pu g) (s_Uu g) (s_su g) ou nu /\
+              s_sv g' = s_sv g /\ s_Uv g' = s_Uv g)) /\
+  (raised = false ->
+     s_su g' = (s_su g + eff ou nu)%nat /\ s_sv g' = (s_sv g + eff ov nv)%nat /\
+     s_Uu g' = kv_after (s_pu g) (s_Uu g) (s_su g) ou nu /\ s_Uv g' = kv_after (s_pv g) (s_Uv g) (s_sv g) ov nv) /\
+  s_pu g' = s_pu g /\ s_pv g' = s_pv g /\ swf g' dim /\
+  forall c tu tv, (c < dim)%nat -> surf_pt g' c tu tv = surf_pt g c tu tv.
+Proof. exact insert_knot_surf_correct. Qed.
+Print Assumptions C04_insert_knot_surf_correct.
+
+(* the same with every hypothesis spelled out, one direction requested (u; v is symmetric) *)
+Theorem C04_insert_knot_surf_u_correct : forall (tol : R) (g : surf (T:=R)) (t : R) (nu nv dim : nat),
+  sortedR (s_Uu g) -> (s_pu g < s_su g)%nat -> length (s_Uu g) = (s_su g + s_pu g + 1)%nat ->
+  sortedR (s_Uv g) -> (s_pv g < s_sv g)%nat -> length (s_Uv g) = (s_sv g + s_pv g + 1)%nat ->
+  (forall i, (i < s_sv g * s_su g)%nat -> length (getp (s_P g) i) = dim) ->
+  (knR (s_Uu g) (s_pu g) <= t < knR (s_Uu g) (s_su g))%R ->
+  (forall i, (i < length (s_Uu g))%nat -> (Rabs (t - knR (s_Uu g) i) <= tol)%R -> knR (s_Uu g) i = t) ->
+  (1 <= nu)%nat ->
+  let '(g', raised) := insert_knot_surf Rops tol true g [Some t; None] [Z.of_nat nu; Z.of_nat nv] in
+  (raised = true <-> (s_pu g - find_multiplicity Rops tol t (s_Uu g) < nu)%nat) /\ (raised = true -> g' = g) /\
+  (raised = false -> s_su g' = (s_su g + nu)%nat /\ s_sv g' = s_sv g /\ s_Uv g' = s_Uv g /\
+     s_Uu g' = knot_insertion_kv (s_Uu g) t (find_span_linear Rops (s_pu g) (s_Uu g) (s_su g) t) nu) /\
+  s_pu g' = s_pu g /\ s_pv g' = s_pv g /\
+  forall c tu tv, (c < dim)%nat -> surf_pt g' c tu tv = surf_pt g c tu tv.
+Proof.
+  intros tol g t nu nv dim A1 A2 A3 B1 B2 B3 Hd Hu Hsep Hn.
+  apply (insert_knot_surf_u_correct tol g t nu nv dim); [|split; assumption|exact Hn].
+  split; [split; [exact A1|split; assumption]|]. split; [split; [exact B1|split; assumption]|exact Hd].
+Qed.
+Print Assumptions C04_insert_knot_surf_u_correct.
+
+Theorem C04_insert_knot_surf_v_correct : forall (tol : R) (g : surf (T:=R)) (t : R) (nu nv dim : nat),
+  sortedR (s_Uu g) -> (s_pu g < s_su g)%nat -> length (s_Uu g) = (s_su g + s_pu g + 1)%nat ->
+  sortedR (s_Uv g) -> (s_pv g < s_sv g)%nat -> length (s_Uv g) = (s_sv g + s_pv g + 1)%nat ->
+  (forall i, (i < s_sv g * s_su g)%nat -> length (getp (s_P g) i) = dim) ->
+  (knR (s_Uv g) (s_pv g) <= t < knR (s_Uv g) (s_sv g))%R ->
+  (forall i, (i < length (s_Uv g))%nat -> (Rabs (t - knR (s_Uv g) i) <= tol)%R -> knR (s_Uv g) i = t) ->
+  (1 <= nv)%nat ->
+  let '(g', raised) := insert_knot_surf Rops tol true g [None; Some t] [Z.of_nat nu; Z.of_nat nv] in
+  (raised = true <-> (s_pv g - find_multiplicity Rops tol t (s_Uv g) < nv)%nat) /\ (raised = true -> g' = g) /\
+  (raised = false -> s_sv g' = (s_sv g + nv)%nat /\ s_su g' = s_su g /\ s_Uu g' = s_Uu g /\
+     s_Uv g' = knot_insertion_kv (s_Uv g) t (find_span_linear Rops (s_pv g) (s_Uv g) (s_sv g) t) nv) /\
+  s_pu g' = s_pu g /\ s_pv g' = s_pv g /\
+  forall c tu tv, (c < dim)%nat -> surf_pt g' c tu tv = surf_pt g c tu tv.
+Proof.
+  intros tol g t nu nv dim A1 A2 A3 B1 B2 B3 Hd Hu Hsep Hn.
+  apply (insert_knot_surf_v_correct tol g t nu nv dim); [|split; assumption|exact Hn].
+  split; [split; [exact A1|split; assumption]|]. split; [split; [exact B1|split; assumption]|exact Hd].
+Qed.
+Print Assumptions C04_insert_knot_surf_v_correct.
+
+(* [G] THE VOLUME OPERATION AS A WHOLE, any subset of the three directions (vwf: the three directions valid,
+   su*sv*sw points of dimension dim); u, v, w are processed in this order and a raise stops the processing *)
+Theorem C04_insert_knot_vol_correct : forall (tol : R) (g : vol (T:=R)) (ou ov ow : option R) (nu nv nw dim : nat),
+  vwf g dim -> par_ok tol (v_pu g) (v_Uu g) (v_su g) ou -> par_ok tol (v_pv g) (v_Uv g) (v_sv g) ov ->
+  par_ok tol (v_pw g) (v_Uw g) (v_sw g) ow ->
+  let '(g', raised) := insert_knot_vol Rops tol true g [ou; ov; ow] [Z.of_nat nu; Z.of_nat nv; Z.of_nat nw] in
+  let xu := excess tol (v_pu g) (v_Uu g) ou nu in let xv := excess tol (v_pv g) (v_Uv g) ov nv in
+  let xw := excess tol (v_pw g) (v_Uw g) ow nw in
+  (raised = true <-> xu \/ xv \/ xw) /\
+  (raised = true -> (xu -> g' = g) /\ (eff ou nu = 0%nat -> xv -> g' = g) /\
+                    (eff ou nu = 0%nat -> eff ov nv = 0%nat -> g' = g)) /\
+  (raised = false ->
+     v_su g' = (v_su g + eff ou nu)%nat /\ v_sv g' = (v_sv g + eff ov nv)%nat /\ v_sw g' = (v_sw g + eff ow nw)%nat /\
+     v_Uu g' = kv_after (v_pu g) (v_Uu g) (v_su g) ou nu /\ v_Uv g' = kv_after (v_pv g) (v_Uv g) (v_sv g) ov nv /\
+     v_Uw g' = kv_after (v_pw g) (v_Uw g) (v_sw g) ow nw) /\
+  v_pu g' = v_pu g /\ v_pv g' = v_pv g /\ v_pw g' = v_pw g /\ vwf g' dim /\
+  forall c tu tv tw, (c < dim)%nat -> vol_pt g' c tu tv tw = vol_pt g c tu tv tw.
+Proof. exact insert_knot_vol_correct. Qed.
+Print Assumptions C04_insert_knot_vol_correct.
+
+(* one direction of a volume (w shown with all hypotheses spelled out; insert_knot_vol_u_correct / _v_correct are the analogues) *)
+Theorem C04_insert_knot_vol_w_correct : forall (tol : R) (g : vol (T:=R)) (t : R) (nu nv nw dim : nat),
+  sortedR (v_Uu g) -> (v_pu g < v_su g)%nat -> length (v_Uu g) = (v_su g + v_pu g + 1)%nat ->
+  sortedR (v_Uv g) -> (v_pv g < v_sv g)%nat -> length (v_Uv g) = (v_sv g + v_pv g + 1)%nat ->
+  sortedR (v_Uw g) -> (v_pw g < v_sw g)%nat -> length (v_Uw g) = (v_sw g + v_pw g + 1)%nat ->
+  (forall i, (i < v_su g * v_sv g * v_sw g)%nat -> length (getp (v_P g) i) = dim) ->
+  (knR (v_Uw g) (v_pw g) <= t < knR (v_Uw g) (v_sw g))%R ->
+  (forall i, (i < length (v_Uw g))%nat -> (Rabs (t - knR (v_Uw g) i) <= tol)%R -> knR (v_Uw g) i = t) ->
+  (1 <= nw)%nat ->
+  let '(g', raised) := insert_knot_vol Rops tol true g [None; None; Some t] [Z.of_nat nu; Z.of_nat nv; Z.of_nat nw] in
+  (raised = true <-> (v_pw g - find_multiplicity Rops tol t (v_Uw g) < nw)%nat) /\ (raised = true -> g' = g) /\
+  (raised = false -> v_sw g' = (v_sw g + nw)%nat /\ v_su g' = v_su g /\ v_sv g' = v_sv g /\ v_Uu g' = v_Uu g /\ v_Uv g' = v_Uv g /\
+     v_Uw g' = knot_insertion_kv (v_Uw g) t (find_span_linear Rops (v_pw g) (v_Uw g) (v_sw g) t) nw) /\
+  v_pu g' = v_pu g /\ v_pv g' = v_pv g /\ v_pw g' = v_pw g /\
+  forall c tu tv tw, (c < dim)%nat -> vol_pt g' c tu tv tw = vol_pt g c tu tv tw.
+Proof.
+  intros tol g t nu nv nw dim A1 A2 A3 B1 B2 B3 C1 C2 C3 Hd Hu Hsep Hn.
+  apply (insert_knot_vol_w_correct tol g t nu nv nw dim); [|split; assumption|exact Hn].
+  split; [split; [exact A1|split; assumption]|]. split; [split; [exact B1|split; assumption]|].
+  split; [split; [exact C1|split; assumption]|exact Hd].
+Qed.
+Print Assumptions C04_insert_knot_vol_w_correct.
+
+(* non-vacuity: a biquadratic 4 x 3 surface; u = 1/2 is a simple interior knot of Uu (one more copy admissible, two not),
+   v = 1/3 lies inside a span of Uv (two copies admissible): both directions at once, and the partial state when v raises *)
+Example C04_ex_surface_both_directions :
+  let g := mkS 2 2 [0;0;0;1#2;1;1;1]%Q [0;0;0;1;1;1]%Q 4 3
+               [[0;0;0];[0;1;1];[0;2;0]; [1;0;1];[1;1;2];[1;2;1]; [2;0;0];[2;1;1];[2;2;3]; [3;0;1];[3;1;0];[3;2;1]]%Q in
+  (let '(g', raised) := insert_knot_surf Qops 0%Q true g [Some (1#2)%Q; Some (1#3)%Q] [1%Z; 2%Z] in
+     raised = false /\ s_su g' = 5%nat /\ s_sv g' = 5%nat /\ length (s_P g') = 25%nat /\
+     s_Uu g' = [0;0;0;1#2;1#2;1;1;1]%Q /\ s_Uv g' = [0;0;0;1#3;1#3;1;1;1]%Q) /\
+  (let '(g', raised) := insert_knot_surf Qops 0%Q true g [Some (1#2)%Q; Some (1#3)%Q] [2%Z; 1%Z] in raised = true /\ g' = g) /\
+  (let '(g', raised) := insert_knot_surf Qops 0%Q true g [Some (1#2)%Q; Some (1#3)%Q] [1%Z; 3%Z] in
+     raised = true /\ s_su g' = 5%nat /\ s_sv g' = 3%nat /\ s_Uv g' = s_Uv g).
+Proof. vm_compute. repeat split. Qed.
